@@ -10,7 +10,7 @@
 From Coq Require Import List NArith Bool Sorting.Sorted.
 Import ListNotations.
 From ZV.Conc Require Import Sched MtModel MtProofs MtRing MtRingC MtRingT MtPool MtFrame MtSleep MtStep MtLive.
-From ZV.Conc Require Import MtErr MtErrC MtFlush MtFlushC MtGeo MtGeoC MtGeoW MtLdm MtLdmBug MtTermS MtTermR MtTermQ3 MtTerm MtTermAll.
+From ZV.Conc Require Import MtErr MtErrC MtFlush MtFlushC MtGeo MtGeoC MtGeoW MtLdm MtLdmBug MtTermS MtTermR MtTermQ3 MtTerm MtTermAll MtSeq.
 Local Open Scope N_scope.
 
 (* mt_serial_order (1): serial sections (LDM sequence generation + checksum update) are executed in strictly increasing
@@ -302,7 +302,9 @@ Print Assumptions mt_release_wait_has_runner.
 
 (* the geometry invariant of the round buffer and of the LDM window (MtGeo.GInv: capacity, live jobs behind the frontier, the frontier has
    not lapped an unfinished job, consecutive sources follow each other, the LDM window holds at most windowSize bytes and ends where the job
-   of the next serial turn continues) and MtGeo.SrOk (ldmWindow = ldmState.window, serial.nextJobID <= nextJobID) hold in every reachable state *)
+   of the next serial turn continues) and MtGeo.SrOk (ldmWindow = ldmState.window; serial.nextJobID <= nextJobID, except while
+   ZSTDMT_initCStream_internal of a frame WITHOUT LDM stands at ZSTDMT_setNbSeq: ZSTDMT_serialState_reset resets serial.nextJobID after that
+   call since fix 97c340a, nextJobID is already 0) hold in every reachable state *)
 Theorem mt_buffer_geometry_invariant : forall cfg ops sched,
   0 < c_chunk cfg -> ops_ok ops -> geo_ops ops ->
   let s := run state (step cfg) sched (init cfg ops) in TInv cfg s /\ SrOk s /\ GInv cfg s.
@@ -418,3 +420,19 @@ Theorem mt_terminates_fair_all : forall cfg ops sigma,
   exists n, caller_done (state_at cfg ops sigma n) = true.
 Proof. exact fair_terminates_all. Qed.
 Print Assumptions mt_terminates_fair_all.
+
+(* ---- third wave: the sequence pool follows the frame's LDM flag (the protocol of fix 97c340a) ---- *)
+
+(* in every reachable state, under every schedule, for every call program (frames with and without LDM in any order on one context) and
+   every payload oracle: (a) outside the two pool sections of ZSTDMT_initCStream_internal (ZSTDMT_setBufferSize, ZSTDMT_setNbSeq) the
+   buffer size of the sequence pool is non-zero exactly when the frame uses long-distance matching; (b) a pool thread inside a job holds a
+   sequence buffer only in an LDM frame; (c) a pool thread stands at the sequence pool's mutex (ZSTDMT_getSeq / ZSTDMT_releaseSeq) only
+   while the pool is switched on and the frame uses LDM: the jobs of a frame without LDM neither lock the sequence pool nor take a
+   buffer from it, whatever the context compressed before *)
+Theorem mt_seq_pool_follows_ldm : forall cfg ops sched,
+  0 < c_chunk cfg -> ops_ok ops -> let s := run state (step cfg) sched (init cfg ops) in
+  (c_pc (cl s) <> CInitBuf -> c_pc (cl s) <> CInitSeq -> sp_on (pl s) = ldm (mt s)) /\
+  (forall t w, nth_error (ws s) t = Some w -> active (w_pc w) = true -> w_seq w = true -> ldm (mt s) = true) /\
+  (forall t w, nth_error (ws s) t = Some w -> w_pc w = WGetSeq \/ w_pc w = WRelSeq -> sp_on (pl s) = true /\ ldm (mt s) = true).
+Proof. exact seq_pool_follows_ldm. Qed.
+Print Assumptions mt_seq_pool_follows_ldm.
